@@ -10,6 +10,7 @@ format rendered, no Crash/Hang).
 """
 import base64
 import json
+import os
 import re
 
 import vlib
@@ -77,26 +78,42 @@ def sig_of(v):
     return "C02:%s:%s:%s" % (what, mode, feat)
 
 
-def judge(ctx, trace, tag):
+def judge_file(ctx, path, tag, on_record=None):
+    """Stream the recorded trace through PipelineTrace in chunks cut at Read/Bin boundaries (every run is judged whole).
+    on_record(rec) is called for every record (light-weight accounting by the caller)."""
     viol, drift = [], []
-    # chunks are cut at Read boundaries so that every run is judged whole
-    start = 0
-    n = len(trace)
-    while start < n:
-        end = min(n, start + JUDGE_CHUNK)
-        while end < n and trace[end]["ev"] not in ("Read", "Bin"):
-            end += 1
-        chunk = trace[start:end]
-        tpath = write_ndjson(ctx.path("c02_trace_%s_%d.ndjson" % (tag, start)), chunk)
-        j = ctx.tlc("PipelineTrace", "PipelineTrace.cfg", workers=1, timeout=3000, heap="8g", tag="judge-%s-%d" % (tag, start),
+    total = 0
+
+    def flush(lines, k):
+        if not lines:
+            return
+        tpath = ctx.path("c02_trace_%s_%d.ndjson" % (tag, k))
+        with open(tpath, "w") as f:
+            f.writelines(lines)
+        j = ctx.tlc("PipelineTrace", "PipelineTrace.cfg", workers=1, timeout=3000, heap="8g", tag="judge-%s-%d" % (tag, k),
                     files={"c02_trace.ndjson": tpath})
         done = prints(j, "DONE")
-        if not done or done[0][0] != len(chunk):
-            raise MachineryError("JUDGE consumed %s of %d trace records (%s)" % (done[0][0] if done else "?", len(chunk), tag))
-        viol += prints(j, "VIOL")
-        drift += prints(j, "DRIFT")
-        start = end
-    return viol, drift
+        if not done or done[0][0] != len(lines):
+            raise MachineryError("JUDGE consumed %s of %d trace records (%s)" % (done[0][0] if done else "?", len(lines), tag))
+        viol.extend(prints(j, "VIOL"))
+        drift.extend(prints(j, "DRIFT"))
+        os.remove(tpath)
+
+    buf, k = [], 0
+    with open(path) as f:
+        for line in f:
+            if not line.strip():
+                continue
+            rec = json.loads(line)
+            if on_record:
+                on_record(rec)
+            if len(buf) >= JUDGE_CHUNK and rec["ev"] in ("Read", "Bin"):
+                flush(buf, k)
+                buf, k = [], k + 1
+            buf.append(line if line.endswith("\n") else line + "\n")
+            total += 1
+    flush(buf, k)
+    return viol, drift, total
 
 
 def gen_docs(ctx, maxdev):
@@ -135,19 +152,12 @@ def run(ctx, replay_case=None):
             bases.append({"name": name, "yaml_b64": base64.b64encode(b).decode()})
         for name, text in SEED_DOCS:
             bases.append({"name": name, "yaml_b64": base64.b64encode(text.encode()).decode()})
-        ninputs = len(bases) + (200000 if thorough else 5000)
+        ninputs = len(bases) + (80000 if thorough else 5000)
         nbin = 5000 if thorough else 400
     bpath = write_ndjson(ctx.path("c02_bases.ndjson"), bases)
     # ---- EXEC in-process
     tpath, spath = ctx.path("c02_exec.ndjson"), ctx.path("c02_side.ndjson")
     ctx.vh("exec-c02", bpath, tpath, ninputs, spath, timeout=3300)
-    trace = read_ndjson(tpath)
-    reads = [r for r in trace if r["ev"] == "Read"]
-    if len(reads) != ninputs * NVAR:
-        raise MachineryError("EXEC ran %d of %d (input, variant) pairs" % (len(reads), ninputs * NVAR))
-    herr = [r for r in trace if r["ev"] == "HarnessError"]
-    if herr:
-        raise MachineryError("harness error: %s" % herr[0]["msg"])
     side = {r["input"]: r["yaml_b64"] for r in read_ndjson(spath)}
     # ---- EXEC binary slice
     pint = ctx.build_pint()
@@ -155,19 +165,50 @@ def run(ctx, replay_case=None):
     stride = max(1, ninputs // nbin)
     ctx.vh("exec-c02-bin", bpath, btpath, min(nbin, ninputs), pint, stride, timeout=3300)
     btrace = read_ndjson(btpath)
-    # ---- JUDGE
-    v, dr = judge(ctx, trace, "lint")
-    vb, _ = judge(ctx, btrace, "bin")
-    input_of = {}
-    for r in reads:
-        input_of[r["id"]] = ((r["id"] - 1) // NVAR, r["input"], r["v"])
+    # ---- JUDGE (streaming) + accounting
+    st = {"reads": 0, "herr": None, "entries": 0, "reports": 0, "crash": 0, "hang": 0, "cur": None, "ops": set()}
+    input_of, outcomes = {}, set()
+    sample_ids, sample_events = {1, 2 * ninputs + 1}, {}
+
+    def account(r):
+        ev = r["ev"]
+        if ev == "Read":
+            st["reads"] += 1
+            st["cur"] = [r["v"]]
+            input_of[r["id"]] = ((r["id"] - 1) // NVAR, r["input"], r["v"])
+            if "|" in r["input"]:
+                st["ops"].update(r["input"].split("|", 1)[1].split("+"))
+        elif ev == "HarnessError":
+            st["herr"] = r["msg"]
+        elif ev == "Parsed":
+            st["entries"] += len(r["entries"])
+            st["cur"].append(tuple(sorted(e["kind"] for e in r["entries"])))
+        elif ev == "Reported":
+            st["reports"] += len(r["reports"])
+            st["cur"].append(tuple(sorted({(x["reporter"], x["sev"]) for x in r["reports"]})))
+            outcomes.add(tuple(st["cur"]))
+        elif ev == "Crash":
+            st["crash"] += 1
+        elif ev == "Hang":
+            st["hang"] += 1
+        if r.get("id") in sample_ids:
+            sample_events.setdefault(r["id"], []).append(r)
+
+    v, dr, ntrace = judge_file(ctx, tpath, "lint", account)
+    samples = [{"input": evs[0].get("input", ""), "events": evs} for _, evs in sorted(sample_events.items())]
+    if st["reads"] != ninputs * NVAR:
+        raise MachineryError("EXEC ran %d of %d (input, variant) pairs" % (st["reads"], ninputs * NVAR))
+    if st["herr"]:
+        raise MachineryError("harness error: %s" % st["herr"])
+    vb, _, _ = judge_file(ctx, btpath, "bin")
     # the bytes of an input are re-derived deterministically for replay: (bases, index, seed) -> exec-c02-input
     need = sorted({input_of[cid][0] for cid, _ in v if (input_of[cid][0] not in side)})
     if need:
         ipath = ctx.path("c02_need.ndjson")
-        ctx.vh("exec-c02-input", bpath, ipath, *need)
-        for r in read_ndjson(ipath):
-            side[r["input"]] = r["yaml_b64"]
+        for off in range(0, len(need), 2000):
+            ctx.vh("exec-c02-input", bpath, ipath, *need[off:off + 2000])
+            for r in read_ndjson(ipath):
+                side[r["input"]] = r["yaml_b64"]
     for cid, d in v:
         ino, iname, variant = input_of[cid]
         b64 = side.get(ino, "")
@@ -180,8 +221,28 @@ def run(ctx, replay_case=None):
                       "variant": "binary-" + ("relaxed" if rec["relaxed"] else "strict")})
     drift = ["%s" % json.dumps(d)[:300] for _, d in dr]
     if replay_case is not None:
-        cov = {"evaluations": len(reads) + len(btrace), "distinct_nontrivial": 1, "rule": "replay of one stored input", "samples": trace[:5]}
+        cov = {"evaluations": st["reads"] + len(btrace), "distinct_nontrivial": 1, "rule": "replay of one stored input", "samples": samples[:1]}
         return vlib.conclude(ctx, viols, "exploration", cov, ["replay"], drift=drift)
+    # ---- evidence
+    cov = {
+        "evaluations": st["reads"] + len(btrace),
+        "distinct_nontrivial": len(outcomes),
+        "rule": "one evaluation = one (input, variant) lint+render run or one binary run; inputs = rendered StrictSchema documents, "
+                "repository fixtures, hand-written seeds, seeded mutations of all; distinct non-trivial = distinct (variant, entry kinds, "
+                "(reporter, severity) set) outcomes among runs that reached the Reported stage",
+        "samples": samples,
+        "inputs": ninputs, "variants_per_input": NVAR,
+        "structured_docs": ndocs, "fixture_docs": len(fixtures), "mutated_inputs": ninputs - len(bases),
+        "binary_runs": len(btrace),
+        "binary_exit_codes": sorted({r["exit"] for r in btrace}),
+        "entries_seen": st["entries"], "reports_rendered": st["reports"],
+        "trace_records_judged": ntrace + len(btrace),
+        "mutation_operators_seen": sorted(st["ops"]),
+        "pipeline_machine_states": mc["distinct"],
+        "crash_events": st["crash"],
+        "hang_events": st["hang"],
+    }
+    return vlib.conclude(ctx, viols, "exploration", cov, ["replay"], drift=drift)
     # ---- evidence
     def shape(i):
         evs = [r for r in trace if r.get("id") == reads[i]["id"]]
